@@ -1487,3 +1487,15 @@ V(id='c10-besseljn-rounds-to-enlarged-prec', prop='C10', file='mpmath/libmp/libh
 V(id='c10-benign-round-then-return', prop='C10', file='mpmath/functions/theta.py',
   old="    finally:\n        ctx.prec = prec0\n    return +res\n\n@defun\ndef _djtheta(", new="    finally:\n        ctx.prec = prec0\n    res = +res\n    return res\n\n@defun\ndef _djtheta(",
   expect='silent')
+
+# ------------------------------------------------ C24 T-R8 -------
+V(id='c24-ei-threshold-from-prec', prop='C24', file='mpmath/libmp/libhyper.py',
+  old="            can_use_asymp = xabsint > int(wp*0.693) + 10", new="            can_use_asymp = xabsint > int(prec*0.693) + 10",
+  expect='fire:T-R8:mpf_ei')
+V(id='c24-stirling-threshold-before-bump', prop='C24', file='mpmath/libmp/gammazeta.py',
+  old="    wp += balance_prec\n    n_for_stirling = int(GAMMA_STIRLING_BETA*wp)\n    need_reduction = absn < n_for_stirling\n",
+  new="    n_for_stirling = int(GAMMA_STIRLING_BETA*wp)\n    need_reduction = absn < n_for_stirling\n    wp += balance_prec\n",
+  expect='fire:T-R8:mpc_gamma')
+V(id='c24-benign-threshold-more-conservative', prop='C24', file='mpmath/libmp/libhyper.py',
+  old="            can_use_asymp = xabsint > int(wp*0.693) + 10", new="            can_use_asymp = xabsint > int(wp*0.693) + 12",
+  expect='silent')
